@@ -20,6 +20,24 @@ pub fn intern(s: &str, alias: u64) -> &'static str {
     if let Some(r) = m.get(&(s.to_string(), alias)) {
         return r;
     }
+    // alias 3: names that share ONE allocation with their "_raw" extension (`"value" = &NAMES[..5]`, `"value_raw" = NAMES`):
+    // equal start address, different length — what two constants sliced from one literal look like to a
+    // pointer-keyed cache.  Independent of the order in which the two names are interned.
+    if alias == 3 {
+        let stem = s.strip_suffix("_raw").unwrap_or(s);
+        let base_key = (format!("{stem}_raw"), 3u64);
+        let base: &'static str = match m.get(&base_key) {
+            Some(b) => b,
+            None => {
+                let leaked: &'static str = Box::leak(format!("{stem}_raw").into_boxed_str());
+                m.insert(base_key.clone(), leaked);
+                leaked
+            }
+        };
+        let r: &'static str = if s.ends_with("_raw") { base } else { &base[..stem.len()] };
+        m.insert((s.to_string(), alias), r);
+        return r;
+    }
     // leak a fresh allocation (never shared between aliases, never empty-collapsed: keep one spare byte)
     let mut owned = String::with_capacity(s.len() + 1);
     owned.push_str(s);
@@ -79,7 +97,13 @@ impl Serialize for SVal<'_> {
             "bytes" => s.serialize_bytes(&unhex(j["v"].as_str().unwrap())),
             "seq" => {
                 let items = j["v"].as_array().unwrap();
-                let mut q = s.serialize_seq(Some(items.len()))?;
+                // an optional `hint` overrides the announced length (a Serialize impl may announce any length, or none)
+                let len = match j.get("hint") {
+                    None => Some(items.len()),
+                    Some(Value::Null) => None,
+                    Some(h) => Some(h.as_u64().unwrap_or(0) as usize),
+                };
+                let mut q = s.serialize_seq(len)?;
                 for it in items {
                     q.serialize_element(&SVal(it))?;
                 }
@@ -87,7 +111,8 @@ impl Serialize for SVal<'_> {
             }
             "tuple" => {
                 let items = j["v"].as_array().unwrap();
-                let mut q = s.serialize_tuple(items.len())?;
+                let len = j.get("hint").and_then(|h| h.as_u64()).map(|h| h as usize).unwrap_or(items.len());
+                let mut q = s.serialize_tuple(len)?;
                 for it in items {
                     q.serialize_element(&SVal(it))?;
                 }
@@ -95,7 +120,8 @@ impl Serialize for SVal<'_> {
             }
             "tuple_struct" => {
                 let items = j["v"].as_array().unwrap();
-                let mut q = s.serialize_tuple_struct(name(), items.len())?;
+                let len = j.get("hint").and_then(|h| h.as_u64()).map(|h| h as usize).unwrap_or(items.len());
+                let mut q = s.serialize_tuple_struct(name(), len)?;
                 for it in items {
                     q.serialize_field(&SVal(it))?;
                 }
@@ -105,7 +131,8 @@ impl Serialize for SVal<'_> {
             "unit_struct" => s.serialize_unit_struct(name()),
             "struct" => {
                 let fs = j["f"].as_array().unwrap();
-                let mut q = s.serialize_struct(name(), fs.len())?;
+                let len = j.get("hint").and_then(|h| h.as_u64()).map(|h| h as usize).unwrap_or(fs.len());
+                let mut q = s.serialize_struct(name(), len)?;
                 for f in fs {
                     let key = intern(f[0].as_str().unwrap(), f[1].as_u64().unwrap_or(0));
                     q.serialize_field(key, &SVal(&f[2]))?;
@@ -114,7 +141,12 @@ impl Serialize for SVal<'_> {
             }
             "map" => {
                 let es = j["e"].as_array().unwrap();
-                let mut q = s.serialize_map(Some(es.len()))?;
+                let len = match j.get("hint") {
+                    None => Some(es.len()),
+                    Some(Value::Null) => None,
+                    Some(h) => Some(h.as_u64().unwrap_or(0) as usize),
+                };
+                let mut q = s.serialize_map(len)?;
                 for e in es {
                     q.serialize_key(&SVal(&e[0]))?;
                     q.serialize_value(&SVal(&e[1]))?;
